@@ -4,6 +4,7 @@ import (
 	"fmt"
 	"go/token"
 	"go/types"
+	"strings"
 
 	"golang.org/x/tools/go/ssa"
 )
@@ -412,6 +413,9 @@ func (m *Machine) callVN(caller *frame, name string, fn *ssa.Function, args []Va
 		return nil
 	case "Assert":
 		id, _ := args[0].(Str).Concrete()
+		if m.P.AssertPrefix != "" && !strings.HasPrefix(id, m.P.AssertPrefix) {
+			return nil
+		}
 		m.vnAssert(id, args[1].(*Term))
 		return nil
 	case "Known":
@@ -453,6 +457,28 @@ func (m *Machine) callVN(caller *frame, name string, fn *ssa.Function, args []Va
 			return args[2]
 		}
 		return m.strFromTerm(ts.Ite(c, m.strTerm(args[1].(Str)), m.strTerm(args[2].(Str))))
+	case "IteAny":
+		c := args[0].(*Term)
+		if c.IsConst() {
+			if c.B {
+				return args[1]
+			}
+			return args[2]
+		}
+		toSym := func(v Value) *SymIface {
+			switch v := v.(type) {
+			case *SymIface:
+				return v
+			case Iface:
+				return &SymIface{Sel: ts.BV(0, 64), Alts: []Iface{v}}
+			}
+			m.unsupported("vn.IteAny operand")
+			return nil
+		}
+		x, y := toSym(args[1]), toSym(args[2])
+		alts := append(append([]Iface{}, y.Alts...), x.Alts...)
+		sel := ts.Ite(c, ts.BinBV(OAdd, x.Sel, ts.BV(uint64(len(y.Alts)), 64)), y.Sel)
+		return &SymIface{Sel: sel, Alts: alts}
 	case "EqS":
 		return m.strEq(args[0].(Str), args[1].(Str))
 	case "B2I":
